@@ -73,6 +73,25 @@ theorem seek_eq_scan (fo : FloatOps F) (es : List (SVal F)) (v : Bytes) (h : Sor
   have := seek_any fo v (fun e => e.toStr fo == some v) (by intro s; simp [SVal.toStr]) ss hss
   exact this
 
+/-- **On any bucket the shortcut is sound**: if the element the seek lands on satisfies the
+    predicate, a scan finds a satisfying element too — the shortcut can only omit matches. -/
+theorem seek_sound (es : List (SVal F)) (v : Bytes) (g : SVal F → Bool)
+    (h : (match seekTo es v with | some e => g e | none => false) = true) : es.any g = true :=
+  Filter.seek_sound es v g h
+
+/-- **Buckets of mixed types**: in a bucket whose keys are in bbolt order (type byte first: bools,
+    ints, floats before the strings, datetimes and nils after) the shortcut agrees with the scan as
+    long as no element that is not a string renders to the compared string; what it computes in
+    general is membership among the string elements (`seek_typed`). -/
+theorem seek_eq_scan_typed (fo : FloatOps F) (v : Bytes) (lo : List (SVal F)) (ss : List Bytes) (hi : List (SVal F))
+    (hss : ss.Pairwise (fun a b => bytesLt a b = true))
+    (hlo : ∀ e ∈ lo, ∀ v, keyGe v e = false)
+    (hv : ∀ e ∈ lo ++ hi, e.toStr fo ≠ some v) :
+    (match seekTo (lo ++ ss.map SVal.str ++ hi) v with
+     | some e => e.toStr fo == some v
+     | none => false) = (lo ++ ss.map SVal.str ++ hi).any (fun e => e.toStr fo == some v) :=
+  Filter.seek_eq_scan_typed fo v lo ss hi hss hlo hv
+
 /-- non-vacuity of `SortedStrs` -/
 example : SortedStrs (F := Float) [.str [97], .str [97, 98], .str [98]] :=
   ⟨[[97], [97, 98], [98]], rfl, by decide⟩
@@ -87,7 +106,7 @@ theorem sat_noSeek (sg : Sigma T) (w : World C F) (fo : FloatOps F) :
   induction f with
   | sym n => intro t c; simp [sat, lhsDen, noSeek]
   | setFn fn n => intro t c; cases fn <;> simp [sat, lhsDen, noSeek]
-  | setFnSub fn n q sk li ih =>
+  | setFnSub fn n q so sk li ih =>
     intro t c
     have : ∀ t', (fun c' => sat sg (noSeek w) fo t' c' q) = (fun c' => sat sg w fo t' c' q) :=
       fun t' => funext fun c' => (ih t' c').1
@@ -116,6 +135,53 @@ theorem subquery_count_exact (m nil : C → Bool) (skip limit : Option Int) (row
     scanCount m nil (pagingOffset skip) (pagingLimit limit) rows 0 0 =
       (paged skip limit ((rows.filter fun r => !nil r).filter m)).length :=
   scanCount_paged m nil skip limit rows
+
+/-- … and a `sort by` clause inside the sub-query changes nothing: whatever order `le` it denotes, the
+    scanner (which never reads the sort fields) yields as many rows as "filter, sort, drop k, take m". -/
+theorem subquery_sort_irrelevant (m nil : C → Bool) (le : C → C → Bool) (skip limit : Option Int) (rows : List C) :
+    scanCount m nil (pagingOffset skip) (pagingLimit limit) rows 0 0 =
+      (paged skip limit (sortBy le ((rows.filter fun r => !nil r).filter m))).length :=
+  scanCount_sorted m nil le skip limit rows
+
+/-- `sortBy` only rearranges the rows -/
+theorem sort_is_permutation {α : Type} (le : α → α → Bool) (l : List α) : (sortBy le l).Perm l := sortBy_perm le l
+
+theorem isEmpty_of_length_eq {α β : Type} (l₁ : List α) (l₂ : List β) (h : l₁.length = l₂.length) :
+    l₁.isEmpty = l₂.isEmpty := by
+  cases l₁ <;> cases l₂ <;> simp_all
+
+/-- the world with another reading of what order `sort by` denotes -/
+def withOrder (w : World C F) (le : List (String × Bool) → C → C → Bool) : World C F := { w with rowLe := le }
+
+/-- **The answer does not depend on the order a sub-query's `sort by` denotes**: the specification
+    sorts the rows of a sub-query before skip / limit; for every two orders the verdict is the same
+    (so `eval_refines_sat`, stated for the world's own `rowLe`, holds for the documented comparator
+    order as for any other). -/
+theorem sort_order_irrelevant (sg : Sigma T) (w : World C F) (fo : FloatOps F)
+    (le : List (String × Bool) → C → C → Bool) :
+    ∀ (f : U F) (t : T) (c : C), sat sg (withOrder w le) fo t c f = sat sg w fo t c f ∧
+      lhsDen sg (withOrder w le) fo t c f = lhsDen sg w fo t c f := by
+  intro f
+  induction f with
+  | sym n => intro t c; simp [sat, lhsDen, withOrder]
+  | setFn fn n => intro t c; cases fn <;> simp [sat, lhsDen, withOrder]
+  | setFnSub fn n q so sk li ih =>
+    intro t c
+    have hf : ∀ t', (fun c' => sat sg (withOrder w le) fo t' c' q) = (fun c' => sat sg w fo t' c' q) :=
+      fun t' => funext fun c' => (ih t' c').1
+    have hl : liveRows (withOrder w le) c n = liveRows w c n := rfl
+    have hlen : ∀ t', (paged sk li (sortBy ((withOrder w le).rowLe so) ((liveRows w c n).filter fun c' => sat sg w fo t' c' q))).length =
+        (paged sk li (sortBy (w.rowLe so) ((liveRows w c n).filter fun c' => sat sg w fo t' c' q))).length :=
+      fun t' => paged_length_congr sk li _ _ (by rw [sortBy_length, sortBy_length])
+    cases fn <;> cases hst : sg.setTypes t n <;> simp [sat, lhsDen, hst, hf, hl, hlen]
+    exact isEmpty_of_length_eq _ _ (hlen _)
+  | boolC b => intro t c; simp [sat, lhsDen]
+  | cmp op l r ih => intro t c; simp [sat, lhsDen, (ih t c).2]
+  | inArr l arr ih => intro t c; simp [sat, lhsDen, (ih t c).2]
+  | between l lo hi ih => intro t c; simp [sat, lhsDen, (ih t c).2]
+  | notE e ih => intro t c; simp [sat, lhsDen, (ih t c).1]
+  | unot e ih => intro t c; simp [sat, lhsDen, (ih t c).1]
+  | logic o l r ihl ihr => intro t c; simp [sat, lhsDen, (ihl t c).1, (ihr t c).1]
 
 /-- **Null rules of the specification** (and hence, by `eval_refines_sat`, of the engine): with a
     null left operand and a non-null literal, a well-typed comparison — bool comparisons included —
@@ -195,6 +261,52 @@ example : SeekOK exWorld := by
 example : sat exSigma exWorld witFo () () exFilter = true := by decide
 example : sat exSigma exWorld witFo () () (.cmp .eq (.sym "flag") (.bool false)) = false := by decide
 
+/-- … and it does not otherwise: the int 7 renders to "7" (number-to-string coercion), the seek to
+    "7" lands on "a" -/
+theorem seek_mixed_differs :
+    (match seekTo (F := Float) [.int64 7, .str [97]] [55] with
+     | some e => e.toStr witFo == some [55]
+     | none => false) = false ∧
+    ([SVal.int64 7, .str [97]] : List (SVal Float)).any (fun e => e.toStr witFo == some [55]) = true := by decide +kernel
+
+/-- **why df4edc3 was needed** (seek over a set that holds a number): `anyOf(mixed) = "7"` over the
+    any-typed set {7, "a"}.  Before df4edc3 `IsSeekable()` looked only at the operator and at one side
+    being constant, so the typed tree was the seekable `AnyOfSetExprNode` and the seek (which looks
+    among the string keys only, `seek_mixed_differs`) answered false.  Now only a string-typed symbol
+    qualifies: the tree is the plain `AnyOfSetExprNode`, and the engine answers what the specification
+    says, with a seekable cursor as with a plain one. -/
+def mixSigma : Sigma Unit where
+  sym _ n := if n = "mixed" then some (.any, true) else none
+  setTypes _ _ := none
+
+def mixWorld : World Unit Float where
+  val _ _ := .nil
+  elems _ n := if n = "mixed" then [.int64 7, .str [97]] else []
+  seekable _ n := n = "mixed"
+  subRows _ _ := []
+  nilRow _ := false
+
+def mixFilter : U Float := .cmp .eq (.setFn .anyOf "mixed") (.str [55])
+
+example : isSeekableOpPreDf4edc3 .eq (.anySym "mixed" : TNode Float) (.strC [55]) = true ∧
+    isSeekableOp .eq (.anySym "mixed" : TNode Float) (.strC [55]) = false ∧
+    isSeekableOp .eq (.strSym "roles" : TNode Float) (.strC [55]) = true := by decide
+example : wellTyped mixSigma witFo () mixFilter = true ∧
+    (typeCheck mixSigma witFo () mixFilter).bind (fun p => .ok (p.shape, evalRow mixWorld witFo () p, evalRow (noSeek mixWorld) witFo () p)) =
+      .ok ("AnyOf:mixed(BinStr(AnySym:mixed;StrC;))", true, true) ∧
+    sat mixSigma mixWorld witFo () () mixFilter = true := by decide +kernel
+/-- the old tree on the same world: the shortcut answers false -/
+example : evalRow mixWorld witFo () (.anyOfS "mixed" .eq (.anySym "mixed") (.strC [55])) = false := by decide +kernel
+
+/-- only `=` between a constant and a string-typed symbol is ever evaluated through the seek -/
+theorem seekable_needs_string_symbol (op : Op) (l r : TNode F) (h : isSeekableOp op l r = true) :
+    op = .eq ∧ ((∃ n, l = .strSym n) ∨ (∃ n, r = .strSym n)) := by
+  simp only [isSeekableOp, TNode.seekableStr, Bool.and_eq_true, Bool.or_eq_true, decide_eq_true_eq] at h
+  refine ⟨h.1, ?_⟩
+  rcases h.2 with h2 | h2
+  · left; cases l <;> simp_all [TNode.isStrSym]
+  · right; cases r <;> simp_all [TNode.isStrSym]
+
 /-! ### the bolt-backed store -/
 
 /-- **The stacked cursor of a composite set symbol enumerates exactly the path semantics**:
@@ -203,50 +315,117 @@ theorem stacked_eq_flatMap (db : Db F) (chain : List Atom) (key : Option Bytes) 
     stackedElems db chain key = pathElems db chain key :=
   Filter.stacked_eq_flatMap db chain key
 
-/-- **Dotted names mean what their path means**: when the resolution of a name is regular
-    (`regularParts`: no link is composed onto a composite set symbol that carries a non-iterable tail —
-    always the case for names of up to three segments, `regular_le3`), the symbol `GetSymbol` builds
-    denotes exactly the chain of links the specification reads off the name. -/
-theorem resolve_refines_path (defs : List StoreDef) (st : Nat) (parts : List String)
-    (h : regularParts defs st parts = true) :
+/-- **Dotted names mean what their path means**: for every name, the symbol `GetSymbol` builds denotes
+    exactly the chain of links the specification reads off the name (no hypothesis left since 5f6f9bb:
+    a non-iterable tail survives composition). -/
+theorem resolve_refines_path (defs : List StoreDef) (st : Nat) (parts : List String) :
     specPath defs st parts = (resolve defs st parts).map RSym.atoms :=
-  (resolve_path defs parts st h).1
+  (resolve_path defs parts st).1
 
-/-- On a regularly resolved name the world the code computes (`modelWorld`, code's symbol tables) and
-    the path semantics (`specWorld`, `dbSpecSigma`) agree: type and set-ness, value, set elements; for
-    the symbol of a sub-query (plain cursor) also the linked entity type and the rows visited. -/
-theorem world_refines_spec (db : Db F) (c : Ctx) (n : String) (sub : Bool) (h : nameOK db.defs sub c.1 n = true) :
+/-- On a name that uses external functions directly (`nameOK`), read on an entity, the world the code
+    computes (`modelWorld`, code's symbol tables) and the path semantics (`specWorld`, `dbSpecSigma`)
+    agree: type and set-ness, value, set elements; for the symbol of a sub-query (plain cursor) also the
+    linked entity type and the rows visited. -/
+theorem world_refines_spec (db : Db F) (c : Ctx) (hc : c.2.isSome = true) (n : String) (sub : Bool)
+    (h : nameOK db.defs sub c.1 n = true) :
     (dbSigma db.defs).sym c.1 n = (dbSpecSigma db.defs).sym c.1 n ∧
     (((dbSigma db.defs).sym c.1 n).map (·.2) = some false → (modelWorld db).val c n = (specWorld db).val c n) ∧
     (((dbSigma db.defs).sym c.1 n).map (·.2) = some true → (modelWorld db).elems c n = (specWorld db).elems c n) ∧
     (sub = true → ((dbSigma db.defs).sym c.1 n).map (·.2) = some true →
       (dbSigma db.defs).setTypes c.1 n = (dbSpecSigma db.defs).setTypes c.1 n ∧
       liveRows (modelWorld db) c n = liveRows (specWorld db) c n) :=
-  world_name_eq db c n sub h
+  world_name_eq db c hc n sub h
 
-/-- **`Store.QueryIds` returns exactly the satisfying ids** — the full statement of the property
-    for the bolt-backed store: for every database whose set buckets are sorted string buckets, every
-    store and every well-typed filter (any depth, dotted names of any length, map elements,
-    sub-queries with skip / limit): no matching entity is omitted, no non-matching entity is
-    returned.  The specification reads dotted names as chains of links (`specPath`) and types
-    sub-queries against the entity type the path leads to (`dbSpecSigma`). -/
-theorem query_exact (db : Db F) (fo : FloatOps F) (st : Nat) (f : U F)
-    (hwf : WellFormedDb db) (hwt : wellTyped (dbSpecSigma db.defs) fo st f = true) :
+theorem rootOf_self (defs : List StoreDef) (st : Nat) (h : isChild defs st = false) (fuel : Nat) :
+    rootOf defs fuel st = st := by
+  cases fuel with
+  | zero => rfl
+  | succ k =>
+    simp only [rootOf]
+    simp only [isChild] at h
+    cases hp : (defs[st]?).bind (·.parent) with
+    | none => rfl
+    | some p => simp [hp] at h
+
+/-- **The rows a scan of a store evaluates are the store's entities**: `GetEntitiesBucket` of a child
+    store is its parent's bucket, and the scanners' rule (`IsChildStore ∧ ¬IsEntityPresent ∧ ¬IsExtended`
+    ⇒ skip) leaves exactly the entities that have child data — every parent entity for a store
+    declared extended. -/
+theorem child_store_rows (db : Db F) (hch : ChildRowsNested db) (st : Nat) :
+    (scanIds db st).filter (fun id => !skipped db st id) = entitiesOf db st := by
+  simp only [entitiesOf, skipped]
+  cases hc : isChild db.defs st with
+  | false =>
+    simp only [Bool.false_and, Bool.not_false, filter_const_true, Bool.false_eq_true, if_false, scanIds,
+      rootOf_self db.defs st hc]
+  | true =>
+    cases he : isExtended db.defs st with
+    | true => simp [filter_const_true]
+    | false => simp [hch st hc]
+
+/-- **`Store.QueryIds` returns exactly the satisfying ids** — for every database whose set buckets are
+    sorted string buckets and whose child data is nested in the parents' buckets, every store (root,
+    plain child, extended child) and every well-typed filter (any depth, dotted names of any length,
+    nested map elements, external and mapped symbols, sub-queries with sort / skip / limit, also over
+    child stores), with ONE proviso left: `extNamesOK` — an external function (`AddEntitySymbol`) is used
+    by its own name, not at the end of a dotted name (there the code evaluates it on the empty id when
+    the link in front of it is null: the open finding ext-behind-null-link, `ext_null_link_violates`).
+    The provisos about `set.custom` tails and nil string functions went with 5f6f9bb and fce0761.
+    On schemas without custom symbols the proviso holds for every filter: `query_exact`. -/
+theorem query_exact_partial (db : Db F) (fo : FloatOps F) (st : Nat) (f : U F)
+    (hwf : WellFormedDb db) (hch : ChildRowsNested db) (hext : extNamesOK db.defs st f = true)
+    (hwt : wellTyped (dbSpecSigma db.defs) fo st f = true) :
     query db fo st f = .ok (specQuery db fo st f) := by
-  rw [← dbSigma_eq_spec] at hwt
-  obtain ⟨p, hpp⟩ := transform_total (dbSigma db.defs) fo st f hwt
+  obtain ⟨hwt', hn⟩ := (spec_typed_ok db.defs fo f st).1 hwt hext
+  obtain ⟨p, hpp⟩ := transform_total (dbSigma db.defs) fo st f hwt'
   unfold query specQuery
-  rw [hpp]
+  rw [hpp, ← child_store_rows db hch st]
   simp only
   congr 1
+  rw [List.filter_filter]
   apply List.filter_congr
   intro id _
-  rw [eval_refines_sat (dbSigma db.defs) (modelWorld db) fo (modelWorld_seekOK db hwf) st f hwt p hpp (st, some id)]
-  exact (sat_world_eq db fo f st (st, some id) rfl (namesOK_all db.defs f st) (Or.inl hwt)).1
+  rw [Bool.and_comm]
+  congr 1
+  rw [eval_refines_sat (dbSigma db.defs) (modelWorld db) fo (modelWorld_seekOK db hwf) st f hwt' p hpp (st, some id)]
+  exact (sat_world_eq db fo f st (st, some id) rfl rfl hn (Or.inl hwt')).1
+
+/-- **`Store.QueryIds` returns exactly the satisfying ids** — the full statement of the property on
+    every schema built from `AddIdSymbol` / `AddSymbol` / `AddFkSymbol` / `AddSetSymbol` /
+    `AddFkSetSymbol` / `AddMapSymbol` / `GrantSymbols` (no `AddEntitySymbol`, no `MapSymbol`): every
+    database, store (root, plain or extended child) and well-typed filter, no hypothesis on names. -/
+theorem query_exact (db : Db F) (fo : FloatOps F) (st : Nat) (f : U F)
+    (hwf : WellFormedDb db) (hch : ChildRowsNested db) (hpl : PlainDefs db.defs)
+    (hwt : wellTyped (dbSpecSigma db.defs) fo st f = true) :
+    query db fo st f = .ok (specQuery db fo st f) :=
+  query_exact_partial db fo st f hwf hch (extNamesOK_all db.defs hpl f st) hwt
+
+/-- the statement without the proviso: false on the code as it is (`ext_null_link_violates` below) -/
+def query_exact_fullStatement : Prop :=
+  ∀ (db : Db Float) (fo : FloatOps Float) (st : Nat) (f : U Float), WellFormedDb db → ChildRowsNested db →
+    wellTyped (dbSpecSigma db.defs) fo st f = true → query db fo st f = .ok (specQuery db fo st f)
+
+/-- **Map elements of any depth**: the `entitySymbol` that `createElementSymbol` builds for
+    `m.x₁.….xₙ` (prefix = the map's prefix ++ its key ++ the middle segments, key = the last segment)
+    names exactly the node the specification reads off the name — the bucket path `prefix/key` of the
+    map symbol followed by `x₁ … xₙ`. -/
+theorem map_element_names_node (st : Nat) (md : MapDef) (q : String) (rest : List String) :
+    mapElemPath st md (q :: rest) = elementSymbol st md q rest :=
+  elementSymbol_eq_path st md q rest
+
+/-- … and evaluating it (`GetPath(prefix...)`, then `getTyped(key)`) yields the value stored at that
+    node, null when the node is missing at some level, or is itself a map or a list. -/
+theorem map_element_reads_node (db : Db F) (st : Nat) (bp : List String) (k : String) (ty : NodeType)
+    (key : Option Bytes) :
+    evalAtom db (.mapElem st bp k ty) key =
+      (match key.bind (findEntity db st) with
+       | some e => leafVal (nodeAt e.maps (bp ++ [k]))
+       | none => .nil) :=
+  (specAtomVal_eq db (.mapElem st bp k ty) rfl key).symm
 
 /-- the symbol tables `Store` answers `ast.Parse` with are those of the path semantics -/
-theorem symbol_tables_exact (defs : List StoreDef) : dbSigma defs = dbSpecSigma defs :=
-  dbSigma_eq_spec defs
+theorem symbol_tables_exact (defs : List StoreDef) (hpl : PlainDefs defs) : dbSigma defs = dbSpecSigma defs :=
+  dbSigma_eq_spec defs hpl
 
 /-! ### a null link inside the dotted set symbol of a sub-query is no row (38978b1)
 
@@ -261,7 +440,7 @@ def nilDb : Db Float where
            [{ id := [98, 49], fields := [], sets := [("members", [.str [97, 49], .str [97, 50]])], maps := [] }]]
 
 /-- `count(from members.owner where true) = 1`, asked of the owners -/
-def nilFilter : U Float := .cmp .eq (.setFnSub .count "members.owner" (.boolC true) none none) (.int 1)
+def nilFilter : U Float := .cmp .eq (.setFnSub .count "members.owner" (.boolC true) [] none none) (.int 1)
 
 example : (modelWorld nilDb).subRows (1, some [98, 49]) "members.owner" = [(1, none), (1, some [98, 49])] := by decide
 example : specQuery nilDb witFo 1 nilFilter = [[98, 49]] := by decide
@@ -285,7 +464,7 @@ def tailDb : Db Float where
 
 /-- `count(from groups.boss.boss where label = "x") = 1` -/
 def tailFilter : U Float :=
-  .cmp .eq (.setFnSub .count "groups.boss.boss" (.cmp .eq (.sym "label") (.str [120])) none none) (.int 1)
+  .cmp .eq (.setFnSub .count "groups.boss.boss" (.cmp .eq (.sym "label") (.str [120])) [] none none) (.int 1)
 
 /-- the string payloads of a key list (SVal over Float has no decidable equality) -/
 def strKeys {F : Type} (l : List (SVal F)) : List (Option Bytes) :=
@@ -340,11 +519,12 @@ theorem wellFormed_of_sets (db : Db Float)
     uses a dotted set symbol, a direct (seekable) set, a bool comparison on a null flag and a sub-query -/
 def exDb : Db Float where
   defs := [{ syms := [("id", .id), ("name", .field .str none), ("flag", .field .bool none), ("roles", .set .str none),
-                      ("owner", .field .str (some 1)), ("groups", .set .str (some 1))], maps := [("tags", .any)] },
+                      ("owner", .field .str (some 1)), ("groups", .set .str (some 1))], maps := [("tags", { ty := .any, key := "tags", pfx := [] }), ("meta", { ty := .any, key := "m", pfx := ["ext", "edge"] })] },
            { syms := [("id", .id), ("label", .field .str none), ("boss", .field .str (some 1)),
                       ("members", .set .str (some 0))], maps := [] }]
   rows := [[{ id := [97, 49], fields := [("name", .str [110]), ("owner", .str [98, 49])],
-              sets := [("roles", [.str [120], .str [121]]), ("groups", [.str [98, 49]])], maps := [("tags", [("k", .int64 5)])] },
+              sets := [("roles", [.str [120], .str [121]]), ("groups", [.str [98, 49]])], maps := [("tags", .bucket [("k", .val (.int64 5)), ("site", .bucket [("name", .val (.str [122])), ("lst", .bucket [])])]),
+                       ("ext", .bucket [("edge", .bucket [("m", .bucket [("a", .bucket [("b", .val (.bool true))])])])])] },
             { id := [97, 50], fields := [], sets := [], maps := [] }],
            [{ id := [98, 49], fields := [("label", .str [76]), ("boss", .str [98, 50])],
               sets := [("members", [.str [97, 49], .str [97, 50]])], maps := [] },
@@ -354,7 +534,7 @@ def exDbFilter : U Float :=
   .logic false (.cmp .eq (.setFn .anyOf "groups.boss.label") (.str [77]))
     (.logic true (.cmp .eq (.setFn .anyOf "roles") (.str [121]))
       (.logic false (.cmp .ne (.sym "flag") (.bool true))
-        (.cmp .ge (.setFnSub .count "groups" (.cmp .ne (.sym "label") (.str [])) none (some 1)) (.int 1))))
+        (.cmp .ge (.setFnSub .count "groups" (.cmp .ne (.sym "label") (.str [])) [("label", false)] none (some 1)) (.int 1))))
 
 example : wellTyped (dbSigma exDb.defs) witFo 0 exDbFilter = true := by decide
 theorem exDb_wellFormed : WellFormedDb exDb := by
@@ -371,6 +551,178 @@ theorem exDb_wellFormed : WellFormedDb exDb := by
     | (subst hp; exact ⟨[[97, 49], [97, 50]], rfl, by decide⟩)
 
 example : WellFormedDb exDb := exDb_wellFormed
+
+theorem childRowsNested_of_roots (db : Db Float) (h : ∀ st, isChild db.defs st = false) : ChildRowsNested db := by
+  intro st hc; rw [h st] at hc; cases hc
+
+theorem exDb_nested : ChildRowsNested exDb := by
+  apply childRowsNested_of_roots
+  intro st
+  match st with
+  | 0 => rfl
+  | 1 => rfl
+  | n + 2 => rfl
+
+/-! ### custom symbols: external functions (`AddEntitySymbol`) and mapped symbols (`MapSymbol`)
+
+  `owners` registers `vip` (a bool function of the id), `nick` (a string function) and `mlabel`
+  (`label` through a mapper that prefixes "M").  a1 → boss a2, owner b1; a2 → groups {b1, b2}, owner b2;
+  a3 has no owner.  vip(b2) = true; nick(b1) = nil. -/
+
+def customDefs : List StoreDef :=
+  [{ syms := [("id", .id), ("boss", .field .str (some 0)), ("owner", .field .str (some 1)), ("groups", .set .str (some 1))],
+     maps := [] },
+   { syms := [("id", .id), ("label", .field .str none), ("vip", .custom none .bool none .ext),
+              ("nick", .custom none .str none .ext), ("mlabel", .custom none .str none (.mapped "label" 0))], maps := [] }]
+
+def customRows : List (List (Entity Float)) :=
+  [[{ id := [97, 49], fields := [("boss", .str [97, 50]), ("owner", .str [98, 49])], sets := [], maps := [] },
+    { id := [97, 50], fields := [("owner", .str [98, 50])], sets := [("groups", [.str [98, 49], .str [98, 50]])], maps := [] },
+    { id := [97, 51], fields := [], sets := [], maps := [] }],
+   [{ id := [98, 49], fields := [("label", .str [120])], sets := [], maps := [] },
+    { id := [98, 50], fields := [("label", .str [121])], sets := [], maps := [] }]]
+
+def customMappers : Nat → SVal Float → SVal Float := fun _ v => match v with | .str s => .str (77 :: s) | v => v
+
+def customDb : Db Float where
+  defs := customDefs
+  rows := customRows
+  ext := fun _ n =>
+    if n = "vip" then .boolFn (fun id => id == [98, 50])
+    else if n = "nick" then .strFn (fun id => if id == [98, 49] then none else some id)
+    else .fn fun _ => .nil
+  mappers := customMappers
+
+theorem customDb_wellFormed (db : Db Float) (h : db.rows = customRows) : WellFormedDb db := by
+  apply wellFormed_of_sets
+  intro rows hrows e he p hp
+  rw [h] at hrows
+  simp only [customRows, List.mem_cons, List.mem_nil_iff, or_false] at hrows
+  rcases hrows with rfl | rfl <;> simp only [List.mem_cons, List.mem_nil_iff, or_false] at he <;>
+    rcases he with rfl | rfl | rfl <;> simp only [List.mem_cons, List.mem_nil_iff, or_false] at hp <;>
+    first
+    | exact hp.elim
+    | (subst hp; exact ⟨[[98, 49], [98, 50]], rfl, by decide⟩)
+    | (rcases he with rfl | rfl <;> exact hp.elim)
+
+theorem customDb_nested (db : Db Float) (h : db.defs = customDefs) : ChildRowsNested db := by
+  apply childRowsNested_of_roots
+  intro st
+  rw [h]
+  match st with
+  | 0 => rfl
+  | 1 => rfl
+  | n + 2 => rfl
+
+/-- direct use of the external functions, mapped symbols through a link and through a set:
+    `vip = true` on owners; `owner.mlabel = "Mx" or anyOf(groups.mlabel) = "My"` on things -/
+def customFilter : U Float :=
+  .logic true (.cmp .eq (.sym "owner.mlabel") (.str [77, 120])) (.cmp .eq (.setFn .anyOf "groups.mlabel") (.str [77, 121]))
+
+example : extNamesOK customDefs 0 customFilter = true := by decide
+example : wellTyped (dbSpecSigma customDefs) witFo 0 customFilter = true := by decide
+example : query customDb witFo 0 customFilter = .ok [[97, 49], [97, 50]] := by decide
+example : specQuery customDb witFo 0 customFilter = [[97, 49], [97, 50]] := by decide
+example : query customDb witFo 1 (.cmp .eq (.sym "vip") (.bool true)) = .ok [[98, 50]] := by decide
+example : query customDb witFo 1 (.cmp .eq (.sym "nick") (.str [98, 50])) = .ok [[98, 50]] := by decide
+example : extNamesOK customDefs 1 (.cmp .eq (.sym "nick") (.str [98, 49]) : U Float) = true := by decide
+
+/-- **why 5f6f9bb was needed** (tail dropped): `anyOf(boss.groups.vip) = true` — a1's boss a2 is in group
+    b2, which is vip.  Before 5f6f9bb composing `boss` onto `groups.vip` lost `vip` (`getChain()` returned
+    the iterable part only) and the group ids were compared with `true`; now the chain is complete and
+    the query answers what the path semantics says. -/
+def tailFilterExt : U Float := .cmp .eq (.setFn .anyOf "boss.groups.vip") (.bool true)
+example : (resolvePre5f6f9bb customDefs 0 ["boss", "groups", "vip"]).map (fun r => r.atoms.length) = some 2 := by decide
+example : (resolve customDefs 0 ["boss", "groups", "vip"]).map (fun r => (r.atoms.length, r.hasTail)) = some (3, true) := by decide
+example : (specPath customDefs 0 ["boss", "groups", "vip"]).map List.length = some 3 := by decide
+example : wellTyped (dbSpecSigma customDefs) witFo 0 tailFilterExt = true := by decide
+example : query customDb witFo 0 tailFilterExt = .ok [[97, 49]] ∧ specQuery customDb witFo 0 tailFilterExt = [[97, 49]] := by decide
+/-- the same with the mapped symbol: the elements of `boss.groups.mlabel` are the mapped labels -/
+example : query customDb witFo 0 (.cmp .eq (.setFn .anyOf "boss.groups.mlabel") (.str [77, 120])) = .ok [[97, 49]] ∧
+    specQuery customDb witFo 0 (.cmp .eq (.setFn .anyOf "boss.groups.mlabel") (.str [77, 120])) = [[97, 49]] := by decide
+
+/-- **why fce0761 was needed** (nil string function): nick(b1) is nil; `Eval` used to encode that as
+    `(TypeString, nil)`, the empty string, so `nick = null` missed b1 and `nick = ""` returned it -/
+example : (ExtSrc.strFn (F := Float) fun _ => none).codeValPreFce0761 [98, 49] = .str [] := rfl
+example : (ExtSrc.strFn (F := Float) fun _ => none).codeVal [98, 49] = .nil := rfl
+example : query customDb witFo 1 (.cmp .eq (.sym "nick") .null) = .ok [[98, 49]] ∧
+    specQuery customDb witFo 1 (.cmp .eq (.sym "nick") .null) = [[98, 49]] ∧
+    query customDb witFo 1 (.cmp .eq (.sym "nick") (.str [])) = .ok [] := by decide
+
+/-- **open finding (external function behind a null link)**: `owner.vip = false` — a3 has no owner, the
+    comparison has a null operand; the code evaluates vip("") = false and returns a3 -/
+def extLinkFilter : U Float := .cmp .eq (.sym "owner.vip") (.bool false)
+example : extNamesOK customDefs 0 extLinkFilter = false := by decide
+theorem ext_null_link_violates :
+    query customDb witFo 0 extLinkFilter = .ok [[97, 49], [97, 51]] ∧
+    specQuery customDb witFo 0 extLinkFilter = [[97, 49]] := by decide
+
+theorem query_exact_full_fails : ¬ query_exact_fullStatement := by
+  intro h
+  have := h customDb witFo 0 extLinkFilter (customDb_wellFormed customDb rfl) (customDb_nested customDb rfl) (by decide)
+  rw [ext_null_link_violates.1, ext_null_link_violates.2] at this
+  cases this
+
+/-! ### child stores (the presence rule of the scanners)
+
+  `items` (store 0) with a plain child store (1: own field `level`, the parent's symbols granted) and
+  an extended child store (2: own field `note`).  a1 has plain-child data, a2 has extension data;
+  `kids` links into the plain child store. -/
+
+def childDefs : List StoreDef :=
+  let root : StoreDef := { syms := [("id", .id), ("name", .field .str none), ("kids", .set .str (some 1))],
+                           maps := [("meta", { ty := .any, key := "m", pfx := [] })] }
+  [root,
+   grantSymbols 0 root { syms := [("level", .field .int none)], maps := [], parent := some 0 },
+   grantSymbols 0 root { syms := [("note", .field .str none)], maps := [], parent := some 0, extended := true }]
+
+def childDb : Db Float where
+  defs := childDefs
+  rows := [[{ id := [97, 49], fields := [("name", .str [110])], sets := [("kids", [.str [97, 49], .str [97, 50]])], maps := [] },
+            { id := [97, 50], fields := [("name", .str [109])], sets := [], maps := [] }],
+           [{ id := [97, 49], fields := [("level", .int64 5)], sets := [], maps := [] }],
+           [{ id := [97, 50], fields := [("note", .str [120])], sets := [], maps := [] }]]
+
+theorem childDb_nested : ChildRowsNested childDb := by
+  intro st hc
+  match st with
+  | 0 => simp [isChild, childDb, childDefs] at hc
+  | 1 => decide
+  | 2 => decide
+  | n + 3 => simp [isChild, childDb, childDefs] at hc
+
+/-- the plain child store shows only a1; a granted symbol (`name`) reads the parent's data -/
+example : query childDb witFo 1 (.boolC true) = .ok [[97, 49]] := by decide
+example : specQuery childDb witFo 1 (.boolC true) = [[97, 49]] := by decide
+example : query childDb witFo 1 (.logic false (.cmp .eq (.sym "name") (.str [110])) (.cmp .eq (.sym "level") (.int 5))) = .ok [[97, 49]] := by decide
+/-- the extended child store shows every parent entity; a1 has no extension data: `note = null` -/
+example : query childDb witFo 2 (.cmp .eq (.sym "note") .null) = .ok [[97, 49]] := by decide
+example : specQuery childDb witFo 2 (.cmp .eq (.sym "note") .null) = [[97, 49]] := by decide
+/-- a sub-query whose linked store is the plain child store: a2 is linked but has no child data -/
+example : query childDb witFo 0 (.cmp .eq (.setFnSub .count "kids" (.boolC true) [] none none) (.int 1)) = .ok [[97, 49]] := by decide
+example : specQuery childDb witFo 0 (.cmp .eq (.setFnSub .count "kids" (.boolC true) [] none none) (.int 1)) = [[97, 49]] := by decide
+example : query childDb witFo 0 (.cmp .eq (.setFn .count "kids") (.int 2)) = .ok [[97, 49]] := by decide
+/-- `inheritMapSymbol` files the parent's map symbol under its key: on the child stores `m.x`
+    resolves (and reads the parent's bucket), `meta.x` does not -/
+example : ((dbSigma childDefs).sym 1 "m.x", (dbSigma childDefs).sym 1 "meta.x") = (some (.any, false), none) := by decide
+
+/-- nested tag maps and a map symbol registered with a two-bucket prefix:
+    `tags.site.name = "z"`, `meta.a.b = true`, `tags.site = null` (a map), `tags.site.lst = null` (a list),
+    `tags.k.x = null` (`k` holds a value), `tags.nope.x = null` (missing level) -/
+def exMapFilter : U Float :=
+  .logic false (.cmp .eq (.sym "tags.site.name") (.str [122]))
+    (.logic false (.cmp .eq (.sym "meta.a.b") (.bool true))
+      (.logic false (.cmp .eq (.sym "tags.site") .null)
+        (.logic false (.cmp .eq (.sym "tags.site.lst") .null)
+          (.logic false (.cmp .eq (.sym "tags.k.x") .null) (.cmp .eq (.sym "tags.nope.x") .null)))))
+
+example : wellTyped (dbSpecSigma exDb.defs) witFo 0 exMapFilter = true := by decide
+example : query exDb witFo 0 exMapFilter = .ok [[97, 49]] := by decide
+example : specQuery exDb witFo 0 exMapFilter = [[97, 49]] := by decide
+example : query exDb witFo 0 (.cmp .eq (.sym "tags.site.name") .null) = .ok [[97, 50]] := by decide
+/-- through a link: `owner.tags.…` resolves on the linked store (no map symbol there: rejected) -/
+example : (dbSpecSigma exDb.defs).sym 0 "owner.tags.k" = none := by decide
+example : (dbSpecSigma exDb.defs).sym 1 "members.tags.site.name" = some (.any, true) := by decide
 example : query exDb witFo 0 exDbFilter = .ok [[97, 49]] := by decide
 example : specQuery exDb witFo 0 exDbFilter = [[97, 49]] := by decide
 
@@ -388,5 +740,16 @@ end StorageModel.Properties.C01
 #print axioms StorageModel.Properties.C01.stacked_eq_flatMap
 #print axioms StorageModel.Properties.C01.world_refines_spec
 #print axioms StorageModel.Properties.C01.query_exact
+#print axioms StorageModel.Properties.C01.query_exact_partial
+#print axioms StorageModel.Properties.C01.query_exact_full_fails
+#print axioms StorageModel.Properties.C01.seek_sound
+#print axioms StorageModel.Properties.C01.seek_eq_scan_typed
+#print axioms StorageModel.Properties.C01.seekable_needs_string_symbol
 #print axioms StorageModel.Properties.C01.resolve_refines_path
 #print axioms StorageModel.Properties.C01.symbol_tables_exact
+#print axioms StorageModel.Properties.C01.map_element_names_node
+#print axioms StorageModel.Properties.C01.map_element_reads_node
+#print axioms StorageModel.Properties.C01.child_store_rows
+#print axioms StorageModel.Properties.C01.subquery_sort_irrelevant
+#print axioms StorageModel.Properties.C01.sort_is_permutation
+#print axioms StorageModel.Properties.C01.sort_order_irrelevant
